@@ -2367,12 +2367,13 @@ class quantized_relu(base_quantizer.BaseQuantizer):  # pylint: disable=invalid-n
                                               ) else self.integer))
 
     flags = [str(self.bits), integer_bits]
-    if self.use_sigmoid or self.use_stochastic_rounding:
+    if self.use_sigmoid:
       flags.append(str(int(self.use_sigmoid)))
     if self.negative_slope:
-      flags.append(str(self.negative_slope))
+      flags.append("negative_slope=" + str(self.negative_slope))
     if self.use_stochastic_rounding:
-      flags.append(str(int(self.use_stochastic_rounding)))
+      flags.append(
+          "use_stochastic_rounding=" + str(int(self.use_stochastic_rounding)))
     return "quantized_relu(" + ",".join(flags) + ")"
 
   def __call__(self, x):
